@@ -95,7 +95,8 @@ let run_conc id out =
         hist := ((if via = "tx" then TxnAtomic.KTx else TxnAtomic.KDirect), ops) :: !hist
       | ["NOTE"; "O"; mode; lo; hi; reads] ->
         let md = (match mode with
-            | "section" -> TxnAtomic.MSection | "rotx" -> TxnAtomic.MRoTx | _ -> TxnAtomic.MFree) in
+            | "section" -> TxnAtomic.MSection | "rotx" -> TxnAtomic.MRoTx
+            | "each" -> TxnAtomic.MEach | _ -> TxnAtomic.MFree) in
         let rs = Stdlib.List.map (fun kv ->
             match Stdlib.String.split_on_char '=' kv with
             | [k; st] ->
